@@ -134,8 +134,30 @@ def stores_to(root, attr_chain, nested=True):
     assignments, subscript stores, del, and mutating method calls."""
     MUT = {"pop", "append", "remove", "add", "update", "setdefault", "insert", "clear", "popitem", "extend", "discard", "popleft", "appendleft"}
     out = []
+    # local aliases: `x = self.f[k]` / `x = self.f.get(k)` / `x = self.f` (single assignment): a mutation
+    # through x is a mutation of the field's (element) value
+    aliases = set()
+    counts = {}
+    for n in (ast.walk(root) if nested else walk_no_nested(root)):
+        if isinstance(n, ast.Assign):
+            for t in n.targets:
+                if isinstance(t, ast.Name):
+                    counts[t.id] = counts.get(t.id, 0) + 1
+    for n in (ast.walk(root) if nested else walk_no_nested(root)):
+        if isinstance(n, ast.Assign) and len(n.targets) == 1 and isinstance(n.targets[0], ast.Name) and counts.get(n.targets[0].id) == 1:
+            v = n.value
+            base = v
+            if isinstance(v, ast.Call) and isinstance(v.func, ast.Attribute) and v.func.attr in ("get", "setdefault"):
+                base = v.func.value
+            while isinstance(base, ast.Subscript):
+                base = base.value
+            if chain(base) == attr_chain and not isinstance(v, ast.Name):
+                aliases.add(n.targets[0].id)
     it = ast.walk(root) if nested else walk_no_nested(root)
     for n in it:
+        if aliases and isinstance(n, ast.Call) and isinstance(n.func, ast.Attribute) and n.func.attr in MUT and isinstance(n.func.value, ast.Name) and n.func.value.id in aliases:
+            out.append((n.func.attr, n))
+            continue
         if isinstance(n, (ast.Assign, ast.AugAssign, ast.AnnAssign)):
             targets = n.targets if isinstance(n, ast.Assign) else [n.target]
             for t in targets:
